@@ -36,6 +36,7 @@ def main(tier):
     chk.run("R-CONSTFOLD", R.constfold, r, floor=30)
     chk.run("R-OPCHAIN", C.opchain_cpp, r, cx.cpp, floor=20)
     chk.run("R-KLEENE", MB.kleene, cx.cpp, floor=36)
+    chk.run("R-OKTABLE", MB.oktable, cx.cpp, cx.templates, floor=8)
     chk.run("R-MIRROR", CC.mirror, cx.cpp, floor=8)
     chk.run("R-ARRAYELEM", WN.arrayelem, cx.cpp, floor=6)
     chk.run("R-DOLLAR", B.dollar, r, floor=10)
